@@ -47,6 +47,9 @@ def getReadersFromUrls(*sourceUrls, **options):
         if mibSource.scheme in ('', 'file', 'zip'):
             scheme = mibSource.scheme
             filePath = url2pathname(mibSource.path)
+            if not scheme:
+                # a plain path, not a URL: '#', '?', ';' and '%' are ordinary characters
+                filePath = sourceUrl
             if scheme == 'zip' and mibSource.netloc:
                 # zip://archive.zip: the (relative) path of the archive
                 # ends up in the network location part of the URL
